@@ -83,8 +83,41 @@ def judge(ops, out):
     return None
 
 
+def gen_split_history(r):
+    """cursors spread over neighbouring nodes of a chain built from sequential keys; puts into the gaps fill and split the nodes
+    under and next to them (middle splits, new nodes in front and behind); then every cursor walks back and forth"""
+    ops = ["open %d 1 0" % r.randrange(2), "db 1 0"]
+    n = r.choice([70, 110, 160])
+    key = lambda i: G.H(b"k%06d" % i)
+    order = list(range(n))
+    if r.random() < 0.3:
+        order.reverse()
+    for i in order:
+        ops.append("put 1 %s 0 %s 0 %d" % (key(i * 10), G.H(G.gen_value(r, big=False)), G.gen_level(r)))
+    nc = r.choice([2, 3, 4])
+    base = r.randrange(5, n - 40)
+    pos = [base + r.choice([0, 3, 7, 11, 16, 17, 18, 25, 31, 33]) for _ in range(nc)]
+    for ci, p in enumerate(pos):
+        ops.append("cur %d open 1 eq %s 0" % (ci, key(p * 10)))
+    for _ in range(r.choice([20, 45, 80])):
+        i = r.randrange(max(0, base - 20), min(n, base + 50))
+        ops.append("put 1 %s 0 %s 0 %d" % (key(i * 10 + r.randrange(1, 10)), G.H(G.gen_value(r, big=False)), G.gen_level(r)))
+        if r.random() < 0.25:
+            ci = r.randrange(nc)
+            ops += ["cur %d to %s" % (ci, r.choice(["prev", "prev", "next"])), "cur %d key" % ci]
+    for ci in range(nc):
+        for _ in range(r.choice([4, 10])):
+            ops += ["cur %d to prev" % ci, "cur %d key" % ci]
+        for _ in range(r.choice([3, 8])):
+            ops += ["cur %d to next" % ci, "cur %d key" % ci]
+    for ci in range(nc):
+        ops.append("cur %d close" % ci)
+    ops += ["dump 1", "close"]
+    return ops
+
+
 def make_case(r, nops):
-    ops = gen_history(r, nops)
+    ops = gen_split_history(r) if r.random() < 0.15 else gen_history(r, nops)
     return Case("interleave", ops, lambda out, ops=ops: judge(ops, out), key=hash(tuple(ops)))
 
 
